@@ -7,3 +7,6 @@ func verifWaitGroupAddWindow() {}
 
 // verifSortedSetAddWindow is a no-op outside of verification builds (see verif_on.go).
 func verifSortedSetAddWindow() {}
+
+// verifOnUpdateWindow is a no-op outside of verification builds (see verif_on.go).
+func verifOnUpdateWindow() {}
